@@ -35,8 +35,9 @@ class Flow:
         self.visited_functions = set()
 
     # -- entry points ---------------------------------------------------------
-    def run_function(self, fid, state):
-        key = (fid, state)
+    def run_function(self, fid, state, alias=None):
+        akey = tuple(sorted((k, tuple(v)) for k, v in (alias or {}).items()))
+        key = (fid, state, akey)
         if key in self.memo:
             r = self.memo[key]
             if r is None:
@@ -45,7 +46,10 @@ class Flow:
         self.memo[key] = None
         f = self.F.by_fid[fid]
         self.visited_functions.add(fid)
-        ctx = Ctx(self, f, Env())
+        env = Env()
+        if alias:
+            env.alias.update(alias)
+        ctx = Ctx(self, f, env)
         states = {state}
         for ini in f.get("inits") or []:
             states = self._expr(ini.get("init"), states, ctx)
@@ -140,8 +144,17 @@ class Flow:
                 states = self._inline_lambda(fid, e, states, ctx)
             elif fid is not None and fid in self.F.by_fid and self.enter_call and self.enter_call(self.F.by_fid[fid], e):
                 out = set()
+                g = self.F.by_fid[fid]
+                alias = {}
+                # bind reference parameters to the caller's access paths; `this` of the callee is
+                # the caller's object expression (identity when called on this)
+                for p, a in zip(g["params"], e.get("args", [])):
+                    if p["ty"].get("ref") or p["ty"].get("c") == "ptr":
+                        rs = roots(a, ctx.env)
+                        if rs:
+                            alias[p["id"]] = rs
                 for s in states:
-                    out.update(self.run_function(fid, s))
+                    out.update(self.run_function(fid, s, alias))
                 states = out
             # lambdas handed to a repo callable (executor): the callee runs them zero or more times
             for a in e.get("args", []):
